@@ -80,17 +80,22 @@ def ref_lookup(attached: dict, t):
 class Table:
     """one of the three APIs behind a uniform attach / detach / probe interface"""
 
-    def __init__(self, api):
+    def __init__(self, api, share=None):
+        """share: another Table whose event loop this one runs on (two applications in one process)"""
         self.api = api
         self.log = []
+        self.shared = share is not None
         if api == 'dispatcher':
             self.loop = None
             self.d = Dispatcher()
+        elif share is not None:
+            self.loop, self.env = share.loop, share.env
         else:
             self.loop = VLoop()
             self.loop.enter()
             self.env = owned_env(self.loop)
             self.env.__enter__()
+        if api != 'dispatcher':
             self.face = HFace()
             self.fe = FRONTENDS[api]
             self.app = self.fe.make_app(self.face)
@@ -103,8 +108,9 @@ class Table:
                 self.app.shutdown()
                 self.loop.settle()
             finally:
-                self.env.__exit__(None, None, None)
-                self.loop.__exit__(None, None, None)
+                if not self.shared:
+                    self.env.__exit__(None, None, None)
+                    self.loop.__exit__(None, None, None)
 
     def _handler(self, tag):
         log = self.log
@@ -320,6 +326,44 @@ def reply_cases():
         yield {'lifetime': 4000, 'dt': 5, 'nrep': 1, 'token': token, 'down': True}
 
 
+def run_two_apps(api, rot):
+    """two application objects in one process (each with its own face): what is attached to one is unknown to the other"""
+    viol = []
+    acc = Acc()
+    t1 = Table(api)
+    try:
+        t2 = Table(api, share=t1)
+        try:
+            a1, a2 = {}, {}
+            for k, p in enumerate([('a',), ('a', 'b')]):
+                t1.attach(p, rot + k, 'one:' + '/'.join(p))
+                a1[p] = 'one:' + '/'.join(p)
+            for k, p in enumerate([('a', 'b', 'c'), ('b',)]):
+                t2.attach(p, rot + k, 'two:' + '/'.join(p))
+                a2[p] = 'two:' + '/'.join(p)
+            # a prefix occupied in one application is free in the other
+            try:
+                t2.attach(('a',), rot, 'two:a')
+                a2[('a',)] = 'two:a'
+            except Exception as e:  # noqa
+                viol.append((f'C04|{api}|two-apps|attach-refused|{type(e).__name__}', f'/a is attached in the first application only, the second refused it: {e!r}'))
+            check_table(t1, a1, PROBES4, 'two-apps-first', viol, acc)
+            if not viol:
+                check_table(t2, a2, PROBES4, 'two-apps-second', viol, acc)
+            if not viol:
+                t1.detach(('a',), rot)
+                del a1[('a',)]
+                check_table(t1, a1, PROBES4, 'two-apps-first-after-detach', viol, acc)
+                check_table(t2, a2, PROBES4, 'two-apps-second-after-detach', viol, acc)
+        finally:
+            t2.close()
+    except Exception as e:  # noqa
+        viol.append((f'C04|{api}|two-apps|raises:{type(e).__name__}', repr(e)))
+    finally:
+        t1.close()
+    return viol
+
+
 def run_reconnect(rot):
     """appv2: handlers stay attached over the end of one connection and the start of the next one (same application object)"""
     viol = []
@@ -519,6 +563,17 @@ def unit(arg):
                 acc.violation(sig, what, {'kind': 'hist', 'api': arg['api'], 'seq': seq})
         acc.sample({'api': arg['api'], 'history': [f'{OPS[o][0]} /{"/".join(HP[OPS[o][1]])}' for o in seq]})
     else:
+        for api in APIS:
+            for rot in range(3):
+                v = run_two_apps(api, rot)
+                acc.evaluations += 1
+                acc.state_count += 1
+                acc.nontrivial += 1
+                acc.transitions += 4 * len(PROBES4)
+                acc.outcome(f"two-apps|{api}|{'ok' if not v else 'viol'}")
+                acc.observe(['two-apps', api, rot, [x[0] for x in v]])
+                for sig, what in v:
+                    acc.violation(sig, what, {'kind': 'two-apps', 'api': api, 'rot': rot})
         for rot in range(5):
             v = run_reconnect(rot)
             acc.evaluations += 1
@@ -551,6 +606,8 @@ def replay(case):
         v = run_history(case['api'], case['seq'], acc)
     elif case['kind'] == 'reconnect':
         v = run_reconnect(case['rot'])
+    elif case['kind'] == 'two-apps':
+        v = run_two_apps(case['api'], case['rot'])
     else:
         v, _ = run_reply(case['case'])
     return [{'sig': s, 'what': w} for s, w in v]
